@@ -53,6 +53,24 @@ theorem c07x_alias_transfer {e : Ext} {nameT nameS : List Tok} (k : Spells nameT
   · exact Or.inl h
   · exact Or.inr (c07d_kind_of_spells k (fun k => k ≠ .or) h)
 
+theorem c07x_head_transfer {ts spec : List Tok} {u : Tok} (h : Spells ts spec) (hu : spec.head? = some u) :
+    ∃ t, ts.head? = some t ∧ t.kind = u.kind := by
+  cases spec with
+  | nil => simp at hu
+  | cons u' r =>
+    simp only [List.head?_cons, Option.some.injEq] at hu
+    subst hu
+    obtain ⟨t, ts', rfl, hk, -, -⟩ := h.cons_inv
+    exact ⟨t, rfl, hk⟩
+
+/-- tokens spelling `value % unit` are such a quantity, part by part -/
+theorem c07x_pct_spells_inv {Q vtS utS : List Tok} {pctS : Tok} (h : Spells Q (vtS ++ pctS :: utS)) :
+    ∃ (vt : List Tok) (pct : Tok) (ut : List Tok), Q = vt ++ pct :: ut ∧ Spells vt vtS ∧ pct.kind = pctS.kind ∧
+      Spells ut utS := by
+  obtain ⟨vt, r, rfl, k1, h1⟩ := h.append_inv
+  obtain ⟨pct, ut, rfl, k2, -, k3⟩ := h1.cons_inv
+  exact ⟨vt, pct, ut, rfl, k1, k2, k3⟩
+
 /-- the events of an ingredient `@name{Q}` whose quantity tokens are read as `l` / `R` say, planted in the block
     `T` after `tpre`, its actual tokens being `tB`: exactly `l Q` (`Q` the actual quantity tokens), then the
     ingredient carrying the quantity read, on the byte range of the construct -/
